@@ -20,7 +20,7 @@ CONSTANTS
   KernClasses = {"Plain"}
   ViaClasses = {"transaction"}
   CbFeeClasses = {"cf0"}
-  AlgStride = 101
+  AlgStride = 211
   CbStride = 1
   ShapeStride = 1
 INVARIANTS TypeOK AlgSumIsValue AlgPermutation AlgAddSubRestores AlgSplitSums AlgCommitHom EmitAlg
